@@ -63,7 +63,7 @@ def gen_time(rng):
 class C18(CheckBase):
     id = 'C18'
     title = 'Editing a SINEX solution keeps exactly the remaining parameters and covariance'
-    quick_runs = 1500
+    quick_runs = 1700
     thorough_runs = 60000
     quick_budget_s = 60
     thorough_budget_s = 1200
@@ -108,7 +108,54 @@ class C18(CheckBase):
         self.real_datetime = gnss.datetime
 
     # ---------------------------------------------------------------- generate
+    N_SUBSET_SWEEP = 20
+    N_TIME_SWEEP = len(SPECIAL_TIMES) * len(SPECIAL_DATES)
+
+    def _sweep_trace(self, rng, i):
+        """Deterministic corners first (same in both tiers):
+        runs 0..19   every subset of the stations of a file with 1..5 stations (x velocities x L/U) as removal set;
+        runs 20..162 every special time of day x every special date, all three editors."""
+        if i < self.N_SUBSET_SWEEP:
+            nst = i % 5 + 1
+            vel = (i // 5) % 2 == 1
+            tri = 'LU'[(i // 10) % 2]
+            spec = sx.gen_spec(rng)
+            while len(spec['stations']) < nst or len(set(s['code'] for s in spec['stations'])) < nst:
+                spec = sx.gen_spec(rng)
+            codes = []
+            st = []
+            for x in spec['stations']:
+                if x['code'] not in codes and len(codes) < nst:
+                    codes.append(x['code'])
+                    x = dict(x, soln='1')
+                    x['est'], x['sig'] = (x['est'] + x['est'])[:6 if vel else 3], (x['sig'] + x['sig'])[:6 if vel else 3]
+                    st.append(x)
+            spec.update(stations=st, velocities=vel, triangle=tri)
+            ops = [{'kind': 'gen', 'spec': spec, 'name': 'sweep.snx'}, {'kind': 'clock_set', 't': gen_time(rng)}]
+            for mask in range(0, 2 ** nst - 1):          # all subsets except 'remove everything'
+                ops.append({'kind': 'remove_stns', 'subset': 'sweep', 'codes': [c for k, c in enumerate(codes) if mask >> k & 1],
+                            'pick': 0, 't2': None})
+            return ops
+        j = i - self.N_SUBSET_SWEEP
+        h, m, sec, us = SPECIAL_TIMES[j % len(SPECIAL_TIMES)]
+        y, mo, d = SPECIAL_DATES[j // len(SPECIAL_TIMES)]
+        spec = sx.gen_spec(rng)
+        while not spec['velocities'] or len(spec['stations']) > 4:
+            spec = sx.gen_spec(rng)
+        t = _dt.datetime(y, mo, d, h, m, sec, us).isoformat()
+        ops = [{'kind': 'gen', 'spec': spec, 'name': 'sweep.snx'}, {'kind': 'clock_set', 't': t},
+               {'kind': 'advance_on_read', 'policy': [rng.choice([0, 0.6, 1])]},
+               {'kind': 'remove_stns', 'subset': 'one', 'pick': rng.getrandbits(32), 't2': None},
+               {'kind': 'clock_set', 't': t}, {'kind': 'remove_velocity', 't2': None},
+               {'kind': 'clock_set', 't': t}, {'kind': 'remove_matrixzeros', 't2': None}]
+        return ops
+
     def generate(self, rng, i, tier):
+        if i < self.N_SUBSET_SWEEP + self.N_TIME_SWEEP:
+            ops = self._sweep_trace(rng, i)
+            for j, o in enumerate(ops):
+                o['id'] = j
+            return {'property': 'C18', 'ops': ops, 'faults': [], 'sweep': True}
         ops = []
         spec = sx.gen_spec(rng)
         ops.append({'kind': 'gen', 'spec': spec, 'name': rng.choice(['in.snx', '/data/AUS0OPSSNX.snx', 'sub/dir/x.SNX', 'a b.snx'])})
@@ -416,6 +463,8 @@ class C18(CheckBase):
             if s['code'] not in codes:
                 codes.append(s['code'])
         sub = op['subset']
+        if 'codes' in op:
+            return list(op['codes'])
         if sub == 'none':
             return []
         if sub == 'absent':
